@@ -48,7 +48,7 @@ Inductive pc :=
 
 Record cstate := mkCS { heap : list cval; thr : list pc; gi : Z; gb : Z }.
 
-Inductive act :=
+Inductive cact :=
 | AGet (t : nat) (k : key) (found : option nat)   (* getValue: [Some i] = the map holds value i for k; [None] = insert *)
 | APut (t : nat) (k : key) (found : option nat)   (* Put's getValue, or Upsert's insert (found = None after AEvict of the old one) *)
 | AEvict (i : nat)
@@ -154,7 +154,7 @@ Section Conc.
     | _ => None
     end.
 
-  Definition cstep (s : cstate) (a : act) : option cstate :=
+  Definition cstep (s : cstate) (a : cact) : option cstate :=
     match a with
     | AGet t k found => start s t k found GLoad
     | APut t k found => start s t k found PBytes
@@ -184,7 +184,7 @@ Section Conc.
     | AStep t => step_thread s t
     end.
 
-  Fixpoint crun (s : cstate) (acts : list act) : option cstate :=
+  Fixpoint crun (s : cstate) (acts : list cact) : option cstate :=
     match acts with
     | [] => Some s
     | a :: r => match cstep s a with Some s' => crun s' r | None => None end
